@@ -396,11 +396,10 @@ Section Generic.
       try (destruct ph; inversion He; subst; exact HJ).
     - destruct ph; try discriminate. inversion He; subst. cbn in HJ. subst. unfold phase_locks. exists Ex. reflexivity.
     - destruct ph; try discriminate. inversion He; subst. cbn in HJ. subst. unfold phase_locks. exists Sh. reflexivity.
-    - destruct ph as [|m'|]; try discriminate. destruct (leqb m m') eqn:E; try discriminate.
+    - destruct ph as [|m'|]; try discriminate. cbn in He. destruct (leqb m m') eqn:E; try discriminate.
       inversion He; subst. destruct HJ as [md ->]. unfold phase_locks. cbn. rewrite E. reflexivity.
-    - destruct ph as [|m'|]; try discriminate. destruct (leqb (guard f) m'); inversion He; subst. exact HJ.
-    - destruct ph as [|m'|]; try discriminate. destruct (leqb (guard f) m'); inversion He; subst. exact HJ.
-    - destruct ph; discriminate.
+    - destruct ph as [|m'|]; try discriminate. cbn in He. destruct (leqb (guard f) m'); inversion He; subst. exact HJ.
+    - destruct ph as [|m'|]; try discriminate. cbn in He. destruct (leqb (guard f) m'); inversion He; subst. exact HJ.
   Qed.
 
   Definition no_jump (i : nat) (tr : list (nat * @event L F)) : Prop := ~ In (i, EJump) tr.
@@ -466,7 +465,12 @@ Section Generic.
     - intros f -> Hg. specialize (Hrd f eq_refl). cbn in Hrd. rewrite Hg, leqb_refl in Hrd.
       destruct md; [exists k'; exact Hi1|congruence].
   Qed.
+  Lemma single_section_cont s : single_section leqb guard s = true -> sec_cont Before [s] = true.
+  Proof.
+    unfold single_section. cbn. destruct (sec Before s) as [[[| |]|]|]; try discriminate; reflexivity.
+  Qed.
 End Generic.
+
 
 
 (* ------------------------------------------------------------------------------------------ *)
@@ -564,7 +568,40 @@ Section Rename.
     - apply is_nil_map.
     - rewrite check_smap. destruct (check leqb guard rank nb ord ls s) as [[l1|]|]; cbn; auto.
   Qed.
+  (* the single-section checker under the same renaming *)
+  Definition mapph (ph : @phase L) : @phase L' :=
+    match ph with Before => Before | Inside m => Inside (fl m) | After => After end.
+
+  Lemma phase_eqb_map a b : phase_eqb leqb' (mapph a) (mapph b) = phase_eqb leqb a b.
+  Proof. destruct a, b; cbn; try reflexivity. apply leqb_fl. Qed.
+
+  Lemma sec_smap s : forall ph,
+    sec leqb' guard' (mapph ph) (smap fl ff s) = option_map (option_map mapph) (sec leqb guard ph s).
+  Proof.
+    induction s as [|a IHa b IHb|a IHa b IHb|b IHb|m md|m|f|f|c|]; intro ph; cbn [smap sec].
+    - reflexivity.
+    - rewrite IHa. destruct (sec leqb guard ph a) as [[p1|]|]; cbn; auto.
+    - rewrite IHa, IHb.
+      destruct (sec leqb guard ph a) as [[p1|]|]; destruct (sec leqb guard ph b) as [[p2|]|]; cbn; auto.
+      rewrite phase_eqb_map. destruct (phase_eqb leqb p1 p2); reflexivity.
+    - rewrite IHb. destruct (sec leqb guard ph b) as [[p1|]|]; cbn; auto.
+      rewrite phase_eqb_map. destruct (phase_eqb leqb p1 ph); reflexivity.
+    - destruct ph; reflexivity.
+    - destruct ph as [|m'|]; cbn; try reflexivity. rewrite leqb_fl. destruct (leqb m m'); reflexivity.
+    - destruct ph as [|m'|]; cbn; try reflexivity. rewrite guard_comm, leqb_fl. destruct (leqb (guard f) m'); reflexivity.
+    - destruct ph as [|m'|]; cbn; try reflexivity. rewrite guard_comm, leqb_fl. destruct (leqb (guard f) m'); reflexivity.
+    - reflexivity.
+    - destruct ph; reflexivity.
+  Qed.
+
+  Lemma single_section_smap s :
+    single_section leqb' guard' (smap fl ff s) = single_section leqb guard s.
+  Proof.
+    unfold single_section. change (@Before L') with (mapph Before). rewrite sec_smap.
+    destruct (sec leqb guard Before s) as [[[| |]|]|]; reflexivity.
+  Qed.
 End Rename.
+
 
 
 (* ------------------------------------------------------------------------------------------ *)
@@ -655,4 +692,139 @@ Theorem prog_no_wait_cycle prog q i :
 Proof.
   intros Hw Hr. eapply (inv_no_wait_cycle oname_eqb oname_eqb_spec); [reflexivity|].
   eapply (reach_inv false true prog); eassumption.
+Qed.
+
+(* ---- re-instantiation is a jump: between critical sections a name may come to denote another object *)
+Definition inst_ls (rho : string -> N) (ls : @lockset sname) : @lockset oname :=
+  map (fun e => ((rho (fst (fst e)), snd (fst e)), snd e)) ls.
+
+Theorem rebind_is_jump nb ord rho rho' ls k :
+  injective rho' ->
+  (forall m md, In (m, md) ls -> rho' (fst m) = rho (fst m)) ->
+  check_cont sname_eqb guard_of rank_of nb ord ls k = true ->
+  ojump nb ord (inst_ls rho ls) (map (inst rho') k).
+Proof.
+  intros Hinj Hag Hc. unfold ojump, jump_chk.
+  assert (E : inst_ls rho ls = inst_ls rho' ls).
+  { unfold inst_ls. apply map_ext_in. intros [m md] Hin. cbn. rewrite (Hag _ _ Hin). reflexivity. }
+  rewrite E. unfold inst.
+  rewrite <- Hc.
+  apply (check_cont_smap sname_eqb sname_eqb_spec oname_eqb oname_eqb_spec guard_of guard_of rank_of rank_of nb ord
+           (fun m : sname => (rho' (fst m), snd m)) (fun f : sname => (rho' (fst f), snd f))).
+  - intros [a1 a2] [b1 b2] H. inversion H. f_equal. apply Hinj. assumption.
+  - intros [p f]. reflexivity.
+  - intros [p m]. reflexivity.
+Qed.
+
+(* ---- single critical section per store operation *)
+Lemma inst_single_section rho s :
+  injective rho -> single_section oname_eqb guard_of (inst rho s) = single_section_fn s.
+Proof.
+  intro Hinj. unfold inst, single_section_fn.
+  apply (single_section_smap sname_eqb sname_eqb_spec oname_eqb oname_eqb_spec guard_of guard_of).
+  - intros [a1 a2] [b1 b2] H. inversion H. f_equal. apply Hinj. assumption.
+  - intros [p f]. reflexivity.
+Qed.
+
+Lemma store_method_single names prog name body :
+  single_section_prog names prog = true -> In (name, body) prog -> In name names ->
+  single_section_fn body = true.
+Proof.
+  unfold single_section_prog. intros H Hin Hn. apply andb_prop in H as [H _].
+  rewrite forallb_forall in H. specialize (H _ Hin). cbn in H.
+  assert (E : existsb (String.eqb name) names = true).
+  { apply existsb_exists. exists name. split; [assumption|apply String.eqb_refl]. }
+  rewrite E in H. exact H.
+Qed.
+
+Theorem prog_single_section_trace nb ord names prog p tr q i name body rho :
+  single_section_prog names prog = true -> In (name, body) prog -> In name names -> injective rho ->
+  nth_error p i = Some ([], [inst rho body]) ->
+  exec oname_eqb (ojump nb ord) p tr q -> no_jump i tr ->
+  exists ph, run_phase oname_eqb guard_of i Before tr = Some ph.
+Proof.
+  intros Hs Hin Hn Hinj Hi He Hnj.
+  pose proof (store_method_single _ _ _ _ Hs Hin Hn) as Hb.
+  rewrite <- (inst_single_section rho) in Hb by assumption.
+  apply (single_section_cont oname_eqb guard_of) in Hb.
+  destruct (single_section_trace oname_eqb oname_eqb_spec guard_of rank_of nb ord _ _ _ _ He Hnj [] _ Before Hi Hb eq_refl)
+    as (ph & _ & _ & Hr & _).
+  exists ph. exact Hr.
+Qed.
+
+Theorem prog_single_section_atomic_partial names prog p tr p1 i name body rho j e p2 m :
+  well_locked_prog prog = true -> single_section_prog names prog = true -> runs prog p ->
+  In (name, body) prog -> In name names -> injective rho ->
+  nth_error p i = Some ([], [inst rho body]) ->
+  exec oname_eqb (ojump false false) p tr p1 -> no_jump i tr ->
+  run_phase oname_eqb guard_of i Before tr = Some (Inside m) ->
+  step oname_eqb (ojump false false) p1 j e p2 -> j <> i ->
+  (forall f, e = EWr f -> guard_of f <> m) /\
+  (forall f, e = ERd f -> guard_of f = m -> exists k1, nth_error p1 i = Some ([(m, Sh)], k1)).
+Proof.
+  intros Hw Hs Hr Hin Hn Hinj Hi He Hnj Hrun Hst Hne.
+  pose proof (store_method_single _ _ _ _ Hs Hin Hn) as Hb.
+  rewrite <- (inst_single_section rho) in Hb by assumption.
+  apply (single_section_cont oname_eqb guard_of) in Hb.
+  eapply (single_section_atomic_partial oname_eqb oname_eqb_spec guard_of rank_of false false); eauto.
+  apply initial_inv. apply (runs_initial false false prog); assumption.
+Qed.
+
+(* ---- non-vacuity: an injective instantiation exists, and a concrete two-thread execution of a well-locked
+   program reaches a pool where one thread is inside its exclusive section and the other waits for it *)
+Fixpoint enc (s : string) : N :=
+  match s with EmptyString => 0 | String a r => 1 + N_of_ascii a + 256 * enc r end.
+
+Lemma enc_injective : injective enc.
+Proof.
+  intro a. induction a as [|x a IH]; intros [|y b]; cbn [enc]; intro H.
+  - reflexivity.
+  - exfalso. lia.
+  - exfalso. lia.
+  - pose proof (N_ascii_bounded x) as Bx. pose proof (N_ascii_bounded y) as By.
+    assert (E1 : N_of_ascii x = N_of_ascii y) by lia.
+    assert (E2 : enc a = enc b) by lia.
+    apply IH in E2. subst b.
+    apply (f_equal ascii_of_N) in E1. rewrite !ascii_N_embedding in E1. subst y. reflexivity.
+Qed.
+
+Local Open Scope string_scope.
+Definition w_lock : sname := ("h", "Hub.mu").
+Definition w_field : sname := ("h", "Hub.clients").
+Definition w_writer : sstmt := Seq (Acq w_lock Ex) (Seq (Wr w_field) (Rel w_lock)).
+Definition w_reader : sstmt := Seq (Acq w_lock Sh) (Seq (Loop (Rd w_field)) (Seq (Rel w_lock) Return)).
+Definition w_prog : program := [("writer", w_writer); ("reader", w_reader)].
+
+Lemma witness_execution :
+  well_locked_prog w_prog = true /\ no_block_while_locked w_prog = true /\ lock_order_ok w_prog = true /\
+  single_section_prog ["writer"; "reader"] w_prog = true /\
+  exists q t0 t1,
+    reach false false w_prog q /\
+    nth_error q 0 = Some t0 /\ nth_error q 1 = Some t1 /\
+    held oname_eqb (enc "h", "Hub.mu") (fst t0) = Some Ex /\
+    at_access t0 (enc "h", "Hub.clients") true /\
+    at_acq t1 (enc "h", "Hub.mu") /\
+    waits_for oname_eqb q 1 0.
+Proof.
+  repeat (split; [vm_compute; reflexivity|]).
+  set (m := (enc "h", "Hub.mu") : oname). set (f := (enc "h", "Hub.clients") : oname).
+  set (p0 := [([], [inst enc w_writer]); ([], [inst enc w_reader])] : @pool oname oname).
+  set (t0 := ([(m, Ex)], [Wr f; Rel m]) : @thread oname oname).
+  set (t1 := ([], [Acq m Sh; Seq (Loop (Rd f)) (Seq (Rel m) Return)]) : @thread oname oname).
+  exists [t0; t1], t0, t1.
+  assert (Hfree : free oname_eqb m [([], [Acq m Ex; Seq (Wr f) (Rel m)]); ([], [inst enc w_reader])]).
+  { intros [|[|j]] t Ht; cbn in Ht; inversion Ht; subst; try reflexivity. destruct j; discriminate. }
+  split; [|split; [reflexivity|split; [reflexivity|split; [reflexivity|split; [split; reflexivity|split; [reflexivity|]]]]]].
+  - exists p0. split.
+    + intros [|[|j]] t Ht; cbn in Ht; inversion Ht; subst.
+      * exists "writer", w_writer, enc. repeat split; [left; reflexivity|exact enc_injective].
+      * exists "reader", w_reader, enc. repeat split; [right; left; reflexivity|exact enc_injective].
+      * destruct j; discriminate.
+    + exists [(0, ETau); (0, EAcq m Ex); (0, ETau); (1, ETau)].
+      eapply exec_cons. { eapply (Step _ _ _ 0); [reflexivity|apply TSeq]. }
+      eapply exec_cons. { eapply (Step _ _ _ 0); [reflexivity|apply TAcqEx; exact Hfree]. }
+      eapply exec_cons. { eapply (Step _ _ _ 0); [reflexivity|apply TSeq]. }
+      eapply exec_cons. { eapply (Step _ _ _ 1); [reflexivity|apply TSeq]. }
+      apply exec_nil.
+  - exists t1, t0, m. split; [reflexivity|split; [reflexivity|split; [reflexivity|vm_compute; discriminate]]].
 Qed.
